@@ -1,4 +1,4 @@
-HOOK_COMMITS = ["1f23ce1", "19a6366", "2f68a08", "696cad2", "6d64dfa", "02a7a17", "ec44b21", "4f0f0e1", "611fd41", "a6d55ff", "71ec365", "16c9f99", "959e5de"]
+HOOK_COMMITS = ["1f23ce1", "19a6366", "2f68a08", "696cad2", "6d64dfa", "02a7a17", "ec44b21", "4f0f0e1", "611fd41", "a6d55ff", "71ec365", "16c9f99", "959e5de", "8e5f164"]
 NOTES = ("Solver-based checking of the real code: Kani/CBMC harnesses over roto's Rust (engine K), translation validation of the "
          "emitted cranelift IR with symbolic arguments in z3 (engine T), symbolic interpretation of MIR slices of the LIR evaluator "
          "(engine M). See DESIGN.md, section 10 for the as-built record. Exit 2 = inconclusive (timeout, OOM, vacuous harness, "
@@ -102,13 +102,17 @@ claim("C17", MC,
       "even for 2 ASCII bytes), to_string, IpAddr/Prefix accessors are outside. StringLines::get is a recorded known finding.",
       "Kani/CBMC differential checking of string views against byte-loop references; z3 floating-point theory over the MIR bodies of the float built-ins", "K+B", "DESIGN.md 5/C17, 10.5b")
 claim("C20", TV,
-      "Engine M: for every scalar program of the corpus without calls (straight-line, branching and looping), the LIR the real lowering produced is run "
-      "path-wise through the MIR of the evaluator's instruction arms (symbolic payloads) and z3 decides that, wherever the evaluator does not stop loudly, "
-      "its value equals the emitted CLIF's value on every jointly feasible path pair, in both overflow-check profiles; trapping inputs of the compiled "
-      "code must be loud stops. Unit obligation from the same MIR dump: <IrValue as PartialEq>::eq on every pair of variants either stops loudly or answers "
-      "the equality of the bit patterns. Kani: the evaluator's checked memory model (bounds, alignment, offsets accumulate, popped frames).",
-      "Agreement for Assign/Add/Sub/Mul/Div/Mod/FDiv/IntCmp/FloatCmp/Not/Negate/Jump/Switch (switch_on through its MIR, the branch-table lookup modelled); "
-      "Call/Return frames, CallRuntime, memory instructions through eval, and host-call-sequence equality are outside.",
+      "Engine M: for every program of the corpus that lowers to scalar, control-flow, script-function-call and memory instructions (scalars, records, enums, "
+      "Option/?, generated equality functions; straight-line, branching and looping), the LIR the real lowering produced is run path-wise through the MIR of the "
+      "evaluator's instruction arms (symbolic payloads; Offset/Write/Read/Copy through the MIR of IrValue::as_vec/from_slice and IrType::bytes over a model of "
+      "eval::Memory) and z3 decides that, wherever the evaluator does not stop loudly, its value equals the emitted CLIF's value on every jointly feasible path "
+      "pair, in both overflow-check profiles; trapping inputs of the compiled code must be loud stops. Unit obligation from the same MIR dump: "
+      "<IrValue as PartialEq>::eq on every pair of variants either stops loudly or answers the equality of the bit patterns. Kani: the evaluator's checked "
+      "memory (bounds, alignment, offsets accumulate, popped frames) - what the memory model of engine M rests on.",
+      "Instruction arms from MIR: Assign/Add/Sub/Mul/Div/Mod/FDiv/IntCmp/FloatCmp/Not/Negate/Offset/Write/Read/Copy; Switch through the MIR of switch_on (the "
+      "branch-table lookup modelled); Jump/Call/Return and eval's prologue modelled after eval.rs and cross-checked on every run against the real evaluator "
+      "on concrete arguments. CallRuntime, Clone/Drop/Eq/InitString/Initialize/ConstantAddress (strings, lists, host calls) and therefore "
+      "host-call-sequence equality are outside.",
       "symbolic interpretation of rustc MIR slices of lir::eval::eval compared in z3 with the CLIF encoding; Kani on eval::Memory", "M+K", "DESIGN.md 5/C20, 10.5")
 
 NA["C04"] = "signature gate compares a compile-time Rust type with a Roto type through TypeId-keyed hash maps; no value-level kernel CBMC can execute (probe: 30 min without leaving symex); only enumeration of instantiations would remain"
